@@ -27,7 +27,10 @@ RULE = ("(solver class, K, antennas, streams, scalar|vector power over 3 "
         "(repeated one-iteration solves with 'fix' initialisation) and by a "
         "sys.monitoring trace of every iteration inside one solve.  Signature "
         "= (solver, K, Nr, Nt, Ns, init mode, op kinds); non-trivial = the "
-        "identity relation was evaluated after at least one operation.")
+        "identity relation was evaluated after at least one operation.  "
+        "GreedStreamIASolver / BruteForceStreamIASolver wrap each iterative "
+        "solver on 2-3 user channels; afterwards the wrapped solver must satisfy "
+        "all relations at the requested power.")
 ASSUMPTIONS = [
     "identity tolerance 1e3 eps kappa(W_H H_kk full_F); closed-form nulling "
     "1e-9 relative to ||W_H|| ||H_kl|| ||F_l|| times kappa of the channels",
@@ -67,6 +70,8 @@ def check_relations(ctx, s, name, Hkl, exact_power, tag, closed_form=False):
     try:
         F, fF, W, WH, fW, fWH = s.F, s.full_F, s.W, s.W_H, s.full_W, s.full_W_H
         Ns, P = np.asarray(s.Ns), np.asarray(s.P, dtype=float)
+        if P.ndim == 0:
+            P = np.full(K, float(P))
     except Exception as e:
         import traceback
         ctx.ev("relations", False, cls="%s:getter-raised-%s" % (name, type(e).__name__),
@@ -302,6 +307,59 @@ def case_solve(ctx, rng, idx):
     ctx.sample(name, {**tag, "history": hist})
 
 
+def case_stream_search(ctx, rng, idx):
+    """The stream-selecting wrappers (greedy stream reduction, brute force over
+    stream combinations) drive an iterative solver repeatedly; whatever they
+    settle on, the wrapped solver must be left with a valid solution."""
+    name = ["maxsinr", "mmse", "altmin", "minleak"][idx % 4]
+    wrapper = "greedy" if (idx // 4) % 3 else "brute-force"
+    K = int(rng.integers(2, 4))
+    M = int(rng.integers(2, 5)) if wrapper == "greedy" else int(rng.integers(2, 4))
+    Nr, Nt = [M] * K, [M] * K
+    ns = int(rng.integers(1, M)) if M > 1 else 1
+    if wrapper == "greedy" and M >= 3 and rng.random() < 0.6:
+        ns = int(rng.integers(2, M))                  # room for stream reduction
+    noise = float(10.0 ** rng.uniform(-4, 0))
+    mu, Hkl = make_channel(rng, Nr, Nt, noise)
+    s = SOLVERS[name](mu)
+    if hasattr(s, "_rs"):
+        s._rs.seed(int(rng.integers(0, 2 ** 31)))
+    s.max_iterations = int(rng.choice([5, 20, 60]))
+    P = [None, float(10.0 ** rng.uniform(-1, 2)), 10.0 ** rng.uniform(-1, 2, size=K)][
+        int(rng.integers(0, 3))]
+    tag = {"wrapper": wrapper, "solver": name, "K": K, "M": M, "Ns": ns, "P": P, "noise": noise,
+           "max_iterations": s.max_iterations}
+    w = IA.GreedStreamIASolver(s) if wrapper == "greedy" else IA.BruteForceStreamIASolver(s)
+    try:
+        w.solve(ns, P)
+    except RuntimeError as e:
+        if name == "mmse" and "Lagrange" in str(e):
+            ctx.tally("mmse-declines")
+            return
+        ctx.ev("solve-completes", False, cls="%s(%s):RuntimeError" % (wrapper, name),
+               detail={**tag, "exc": repr(e)})
+        return
+    except Exception as e:
+        import traceback
+        ctx.ev("solve-completes", False, cls="%s(%s):%s" % (wrapper, name, type(e).__name__),
+               detail={**tag, "exc": repr(e), "tb": traceback.format_exc(limit=-4)})
+        return
+    ctx.ev("solve-completes", True)
+    want_P = np.ones(K) if P is None else np.broadcast_to(np.asarray(P, dtype=float), (K,))
+    # (after a restored greedy solution solver.P may be the bare scalar the
+    #  caller passed; the property is about its value, not its representation)
+    got_P = np.asarray(s.P, dtype=float)
+    ctx.ev("relations", got_P.shape in ((K,), ()) and bool(np.all(got_P == want_P)),
+           cls="%s(%s):P-after-solve" % (wrapper, name),
+           detail={**tag, "requested": want_P, "solver.P": got_P})
+    got_Ns = [int(x) for x in np.asarray(s.Ns)]
+    ctx.ev("shapes-and-stream-counts", len(got_Ns) == K and all(1 <= x <= ns for x in got_Ns),
+           cls="%s:streams-within-request" % wrapper, detail={**tag, "final_Ns": got_Ns})
+    check_relations(ctx, s, "%s(%s)" % (wrapper, name), Hkl, False,
+                    {**tag, "final_Ns": got_Ns})
+    ctx.sig(wrapper, name, K, M, ns, tuple(got_Ns), P is None)
+
+
 # ------------------------------------------------------------- leakage ------
 def find_step_codes(cls):
     codes = []
@@ -394,6 +452,7 @@ def classify(w):
 GENS = {
     "solve": Gen(case_solve, 350, 70000),
     "leakage": Gen(case_leakage, 120, 24000),
+    "stream-search": Gen(case_stream_search, 90, 9000),
 }
 MIN_EVALS = {"identity-equivalent-channel": 1500, "unit-norm-precoder": 1500,
              "power-limit": 3000, "shapes-and-stream-counts": 1500,
